@@ -46,8 +46,8 @@ ASSUMPTIONS = [
 ]
 OUTSIDE = ['graphs beyond the variable/triple bound; random larger graphs']
 
-CONSTS = {'full': ['x', 0, 0.0, -1, '"s t"', None], 'min': ['x']}
-CONCEPTS = {'full': ['x', None, 'a'], 'min': ['x']}
+CONSTS = {'full': ['x', 0, 0.0, -1, '"s t"', None], 'min': ['x'], 'vars': []}
+CONCEPTS = {'full': ['x', None, 'a'], 'min': ['x'], 'vars': ['x']}
 ROLES = {'default': [':r', ':r-of', ':q'],
          'amr': [':ARG0', ':ARG0-of', ':consist-of'],
          'custom': [':r', ':r-of', ':s-of']}
@@ -58,6 +58,9 @@ def h_encode_decode(model: str, nv: int, ne: int, labels: str, perm: str,
     from penman.graph import Graph
     real, ref = models.get(model)
     roles = ROLES[model] if labels == 'full' else ROLES[model][:2]
+    if labels == 'vars':     # edges between variables only, one plain role:
+        roles = roles[:1]    # re-entrancies and cycles (inversion is then
+        #                      the encoder's own doing)
     triples = progs.graph_program(sym, nv, ne, roles, CONSTS[labels],
                                   CONCEPTS[labels])
     # distinct triples
@@ -80,6 +83,18 @@ def h_encode_decode(model: str, nv: int, ne: int, labels: str, perm: str,
             assume(normed[i] != normed[j])
     if perm == 'full':
         ordered = progs.permute(triples, sym)
+    elif perm == 'natural':
+        # as a user (or a decoder) lists them: the other triples in a
+        # symbolic order, each variable's instance triple right after the
+        # first triple that mentions the variable (the top's comes first)
+        inst = {t[0]: t for t in triples[:nv]}
+        ordered = [inst.pop(top)]
+        for tr in progs.permute(triples[nv:], sym):
+            ordered.append(tr)
+            for v in (tr[0], tr[2]):
+                if v in inst:
+                    ordered.append(inst.pop(v))
+        ordered += list(inst.values())
     else:   # instance triples first, only the other triples permuted
         ordered = triples[:nv] + progs.permute(triples[nv:], sym)
     if any(isinstance(t, (int, float)) and not t
@@ -185,6 +200,9 @@ def obligations(tier: str) -> List[dict]:
         for top in (0, 1, 2):
             gp('default', 3, 2, 'min', 'extras', 400, top=top)
         gp('default', 2, 2, 'full', 'extras', 400, e0_s=0, e0_t=1)
+        for top in (0, 1, 2):
+            gp('default', 3, 3, 'vars', 'extras', 400, top=top)
+            gp('default', 3, 3, 'vars', 'natural', 400, top=top)
         for ops in [(0, 1), (1, 0), (1, 1), (1, 2)]:
             obs.append({'name': f'E2 decoded graph (markers), every top, '
                                 f'n=3 ops={ops}', 'kind': 'e2',
